@@ -50,7 +50,7 @@ def fill(v, rnd, salt=0):
 
 SCALARS = ("bool", "string", "int8", "int16", "int32", "int64", "int", "uint8", "uint16", "uint32", "uint64", "uint", "float32", "float64")
 INT_TYS = ["int8", "int16", "int32", "int64", "int", "uint8", "uint16", "uint32", "uint64", "uint", "byte"]
-NAMED_UNDER = {"ZeroT": "struct", "ZeroP": "struct", "FoldT": "struct", "FoldObj": "struct"}
+NAMED_UNDER = {"ZeroT": "struct", "ZeroP": "struct", "FoldT": "struct", "FoldObj": "struct", "RegT": "struct", "RegObj": "struct"}
 
 
 def zero_vd(T):
